@@ -35,6 +35,10 @@ class C06(Spec):
         # one poll result reporting the descriptor readable and writable while a write is pending
         for busy, mb in ([(300, 8), (200, 16)] if tier == "quick" else [(b, m) for b in (100, 300, 600) for m in (6, 8, 16, 32)]):
             cases.append("E %d %d" % (busy, mb << 20))
+        # ... and the handler of the readable half drains the queue itself (flush): the writable half finds nothing queued
+        # (6 MB: the remainder after the first fill fits the drained socket in one go). Worker abort before fix of 2026-09-26.
+        for busy, sz in ([(300, 6 << 20), (400, 5 << 20)] if tier == "quick" else [(b, m) for b in (200, 300, 500) for m in (5 << 20, 6 << 20, 8 << 20)]):
+            cases.append("E %d %d f" % (busy, sz))
         # memory and file buffers (sendfile) mixed, the peer starts reading late so that large buffers really block
         fcases = ["F L 0 r100,f5000,r100", "F L 300 f8000000", "F L 300 r1000,f6000000,r1000,f300000", "F F 200 f4000000,r4000000,f10",
                   "F L 0 f1", "F L 300 f3000000,f3000000", "F F 0 f70000,f70000,r1"]
@@ -81,7 +85,8 @@ class C06(Spec):
                 return "%s of %d promises were fulfilled with the buffer size (%s rejected or wrong)" % (f["fulfilled"], n, f["other"])
             return None
         if t[0] == "E":
-            if int(f["bytes"]) != int(t[2]) or f["content"] != "1" or f["p"] != t[2]:
+            want = int(t[2]) + (4 if len(t) > 3 and t[3] == "f" else 0)     # f: the handler queued 4 more bytes
+            if int(f["bytes"]) != want or f["content"] != "1" or f["p"] != t[2]:
                 return ("a write was pending when its descriptor was reported readable and writable together: the peer received %s of %s bytes, promise %s"
                         % (f["bytes"], t[2], {"P": "never settled", "R": "rejected"}.get(f["p"], "fulfilled with " + f["p"])))
             return None
